@@ -27,7 +27,10 @@
     - [hub_params_op] ... [reg_hub_op]: the operations that can change each record;
       [hub_params_stretch] ... [reg_hub_stretch]: the record is constant along every history that
       contains none of them; [hub_params_stranger_tx]: a transaction not signed by the owner and not a
-      migration never changes the hub's parameters, whatever its target and message. *)
+      migration never changes the hub's parameters, whatever its target and message;
+      [hub_params_stranger_history]: nor does any sequence of such transactions signed by addresses
+      that are neither owner nor nominee ([stranger_op]), interleaved with every non-transaction
+      operation except reset / hub instantiate. *)
 From Krp Require Import Tactics Prelude Fixed FMap Types Env Registry Cw20 Reward Dispatcher Hub Exec
      ExecP Hist HubFrame HubAdmin MirrorWire TokenTx AuthHistEmit AuthHistOwn
      ParamsHistBase ParamsHistTx.
@@ -211,12 +214,16 @@ Proof.
   destruct dm0; cbn [disp_cfg_msg].
   - left. subst. reflexivity.
   - left. subst. reflexivity.
-  - right. destruct He as (Hs & _ & _ & -> & _). split; [exact Et|]. split; [reflexivity|]. eauto 6.
+  - right. destruct He as (Hs & _ & _ & -> & _). split; [exact Et|]. split; [reflexivity|].
+    eexists _, _. split; [reflexivity|]. split; [exact I|]. split; [reflexivity|exact Hs].
   - left. destruct He as (_ & _ & ->). reflexivity.
   - left. destruct He as (_ & _ & ->). reflexivity.
-  - right. destruct He as (Hs & -> & _). split; [exact Et|]. split; [reflexivity|]. eauto 6.
-  - right. destruct He as (Hs & -> & _). split; [exact Et|]. split; [reflexivity|]. eauto 6.
-  - right. destruct He as (Hs & -> & _). split; [exact Et|]. split; [reflexivity|]. eauto 6.
+  - right. destruct He as (Hs & -> & _). split; [exact Et|]. split; [reflexivity|].
+    eexists _, _. split; [reflexivity|]. split; [exact I|]. split; [reflexivity|exact Hs].
+  - right. destruct He as (Hs & -> & _). split; [exact Et|]. split; [reflexivity|].
+    eexists _, _. split; [reflexivity|]. split; [exact I|]. split; [reflexivity|exact Hs].
+  - right. destruct He as (Hs & -> & _). split; [exact Et|]. split; [reflexivity|].
+    eexists _, _. split; [reflexivity|]. split; [exact I|]. split; [reflexivity|exact Hs].
 Qed.
 
 Definition reward_cfg_msg (rm : reward_msg) : Prop :=
@@ -236,10 +243,12 @@ Proof.
   destruct Em as [-> | (n & -> & ->)].
   - destruct rm0; cbn [reward_cfg_msg];
       try (left; destruct He as (E & _); rewrite E; reflexivity).
-    + right. destruct He as (Hs & -> & _). split; [exact Et|]. split; [reflexivity|]. eauto 6.
+    + right. destruct He as (Hs & -> & _). split; [exact Et|]. split; [reflexivity|].
+    eexists _, _. split; [reflexivity|]. split; [exact I|]. split; [reflexivity|exact Hs].
     + left. destruct He as (_ & _ & E & _). rewrite E. reflexivity.
     + left. destruct He as (_ & _ & E & _). rewrite E. reflexivity.
-    + right. destruct He as (Hs & -> & _). split; [exact Et|]. split; [reflexivity|]. eauto 6.
+    + right. destruct He as (Hs & -> & _). split; [exact Et|]. split; [reflexivity|].
+    eexists _, _. split; [reflexivity|]. split; [exact I|]. split; [reflexivity|exact Hs].
   - left. destruct He as (E & _). rewrite E. reflexivity.
 Qed.
 
@@ -577,4 +586,41 @@ Proof.
   - contradiction.
   - inversion Eo; subst. contradiction.
   - inversion Eo; subst. exfalso. eapply Hm. reflexivity.
+Qed.
+
+(** ... nor does any sequence of such transactions, interleaved with every other operation except
+    reset / hub instantiate: [stranger_op own nom o] = a transaction (any target, payload, funds)
+    signed by somebody who is neither the owner nor the nominee and whose root is not a migration,
+    or a non-transaction operation that is not [reinst CHub] *)
+Definition stranger_op (own nom : addr) (o : op) : Prop :=
+  match o with
+  | OTx s _ m _ => s <> own /\ s <> nom /\ (forall lim, m <> WHub (HMigrate lim))
+  | _ => ~ reinst CHub o
+  end.
+
+Lemma stranger_outsider own nom o : stranger_op own nom o -> outsider_op CHub own nom o.
+Proof. destruct o; cbn [stranger_op outsider_op]; tauto. Qed.
+
+Lemma hub_params_stranger_step own nom w o :
+  stranger_op own nom o -> hub_owner w = Some own ->
+  hub_params_of (fst (step w o)) = hub_params_of w.
+Proof.
+  intros Hop Ho. destruct (hub_params_step w o)
+    as [E | [Hr | [(s & e & u & pf & t & pz & rd & f & -> & Hs & _) | (s & lim & f & p & -> & _)]]].
+  - exact E.
+  - exfalso. destruct o; cbn [stranger_op reinst] in *; tauto.
+  - exfalso. cbn [stranger_op] in Hop. destruct Hop as (Hne & _). congruence.
+  - exfalso. cbn [stranger_op] in Hop. destruct Hop as (_ & _ & Hm). eapply Hm. reflexivity.
+Qed.
+
+Theorem hub_params_stranger_history own nom : forall ops w,
+  Forall (stranger_op own nom) ops -> hub_owner w = Some own -> hub_nominee w = Some nom ->
+  hub_params_of (run_ops ops w) = hub_params_of w /\
+  hub_owner (run_ops ops w) = Some own /\ hub_nominee (run_ops ops w) = Some nom.
+Proof.
+  induction ops as [|o ops IH]; intros w HF Ho Hn; [auto|].
+  inversion HF as [|? ? Hop HF']; subst. rewrite run_ops_cons.
+  destruct (outsider_step CHub w o own nom (stranger_outsider _ _ _ Hop) Ho Hn) as [Ho' Hn'].
+  destruct (IH _ HF' Ho' Hn') as (Ip & Io & In). split; [|split; assumption].
+  rewrite Ip. eapply hub_params_stranger_step; eauto.
 Qed.
